@@ -75,7 +75,7 @@ def gRedirs : Toks → Option Toks
 /-- `Parser::simple_command`: returns ((assignments or redirections seen, number of words), rest). -/
 def gSimple : Bool → Nat → Toks → Option ((Bool × Nat) × Toks)
   | ar, w, [] => some ((ar, w), [])
-  | ar, w, .io :: t =>
+  | _, w, .io :: t =>
     match t with
     | .op s :: o :: t' => if isRedirOp s && isOperand o then gSimple true w t' else none
     | _ => none
@@ -332,9 +332,11 @@ def gProgram : Nat → Toks → Bool
         | .op s :: r' => if s == "\n" then gProgram f r' else false
         | _ => false
 
-/-- Is the text accepted by the parser (without aliases)? -/
-def validText (cs : List Char) : Bool :=
-  let ts := tokenize (cs.length + 1) (plain cs)
+/-- Is the token sequence accepted by the parser? -/
+def validToks (ts : Toks) : Bool :=
   !ts.contains .bad && gProgram (12 * ts.length + 40) ts
+
+/-- Is the text accepted by the parser (without aliases)? -/
+def validText (cs : List Char) : Bool := validToks (tokenize (cs.length + 1) (plain cs))
 
 end YashModel.Alias
